@@ -498,6 +498,10 @@ class DAGRunConcurrentManager(DAGRunManagerLike):
                 # We must unlock descendants because the next OneOf subgraph should start the process.
                 # Otherwise, the entire subgraph will be locked.
                 await self.__unlock_descendants(node_id)
+
+                # The OneOf head waits on the candidate node (dag.dest), which can be several hops
+                # below the node that was being awaited here.
+                await self.__unlock_itself(dag.dest)
                 return None
 
             if self._is_switch(node_id):
